@@ -26,6 +26,7 @@ class GenOpts(object):
         self.allow_bytes = True
         self.nonfixed_bytes = True    # bytes<>, <N>, <...>, <@n> (only bytes[N] when False)
         self.allow_unset = True
+        self.unset_bias = (12, 15)    # 1/n of union arms / struct members are left unset
         self.allow_const_refs = True
         self.const_ref_bias = 6      # 1/n of sizes / discriminators refer to a constant when one fits
         self.const_exprs = False      # constants / enumerators given as expressions over earlier names
@@ -54,6 +55,7 @@ class _Builder(object):
         self.disc_consts = []   # (name, value) usable as discriminators
         self.counter = 0
         self.used_names = set()
+        self._odd_sized = set()   # fixed structs with alignment <= 4 and size = 4 (mod 8)
         self.vec = {}         # user type name -> contains (transitively) a limited array (std::vector in C++)
 
     def fresh(self, stem):
@@ -187,13 +189,20 @@ class _Builder(object):
                                    min_size=n, max_size=n, unique=True))
         names = self.draw(st.lists(st.sampled_from(FIELD_NAMES), min_size=n, max_size=n, unique=True))
         arms = []
+        odd = [t for t, st_ in self.stiff.items() if st_ == FIXED and t in self._odd_sized]
         for d, an in zip(discs, names):
             expr = None
             if self.o.allow_const_refs and self.draw(st.integers(0, max(self.o.const_ref_bias - 2, 1))) == 0:
                 cands = [c for c in self.disc_consts if c[1] == d]
                 if cands:
                     expr = cands[0][0]
-            arms.append(Arm(d, self.pick_type(FIXED), an, expr))
+            k = len(arms)
+            if k == 0 and n >= 2 and odd and self.draw(st.integers(0, 2)) == 0:
+                arms.append(Arm(d, self.draw(st.sampled_from(odd)), an, expr))     # size = 4 (mod 8), alignment <= 4
+            elif k == 1 and arms[0].type in odd:
+                arms.append(Arm(d, self.draw(st.sampled_from(['u64', 'i64', 'r64'])), an, expr))
+            else:
+                arms.append(Arm(d, self.pick_type(FIXED), an, expr))
         self.decls.append(Union(name, arms))
         self.vec[name] = any(self.vec.get(a.type, False) for a in arms)
         self.stiff[name] = FIXED
@@ -269,6 +278,10 @@ class _Builder(object):
         self.decls.append(Struct(name, members))
         self.vec[name] = any(m.kind == LIMARR or self.vec.get(m.type, False) for m in members)
         self.stiff[name] = stiff
+        if stiff == FIXED:
+            size, align, _ = RefWire(Schema(self.decls)).layout(name)
+            if align <= 4 and size % 8 == 4:
+                self._odd_sized.add(name)
 
     def _is_int(self, t):
         return (t in NUMERIC and not NUMERIC[t][2]) or t in self.intlike
@@ -349,7 +362,7 @@ class ValueGen(object):
             return self.draw(st.sampled_from([m[1] for m in t.members]))
         if isinstance(t, Union):
             arm = self.draw(st.sampled_from(t.arms))
-            if self.o.allow_unset and self.draw(st.integers(0, 11)) == 0 and not self._must_set_type(arm.type):
+            if self.o.allow_unset and self.draw(st.integers(0, self.o.unset_bias[0] - 1)) == 0 and not self._must_set_type(arm.type):
                 return (arm.name, UNSET)
             return (arm.name, self.value(arm.type, depth + 1))
         return self.struct(t, depth)
@@ -383,7 +396,7 @@ class ValueGen(object):
         for m in st_.members:
             if m.name in sizers:
                 continue
-            if self.o.allow_unset and self.draw(st.integers(0, 14)) == 0 and not self._must_set(m):
+            if self.o.allow_unset and self.draw(st.integers(0, self.o.unset_bias[1] - 1)) == 0 and not self._must_set(m):
                 if m.kind != EXTARR or ext_len[m.sizer] == 0:
                     continue          # left unset: reader must see the default
             if m.kind == PLAIN:
